@@ -65,7 +65,13 @@ RULE = (
     "node radii, extrapolation range) against sum spline x ref_Y, radial derivatives 1-3 / spherical derivatives / Cartesian "
     "gradient against numerical differentiation of the same returned callable, spherical average. One 'molecule' case = MolGrid of "
     "2-4 such atomic grids with Becke or arbitrary array aim-weights; the molecular interpolant and its derivative outputs are "
-    "compared with the sum of atomic interpolants of w_A f recomputed by the monitor. A case is non-trivial when L >= 1 "
+    "compared with the sum of atomic interpolants of w_A f recomputed by the monitor. One 'paired' case = two or three AtomGrid "
+    "objects in one process that agree in (method, rotation seed, per-shell degrees) and differ in exactly one other ingredient "
+    "(r=0 node / no r=0 node / 1e-9 node, radial nodes, centre, radial weights), used alternately (X0, X1, [X2], X0 again, a "
+    "freshly built twin of X1 and of X0), ALL clauses decided on every use with a fresh function. In atom and molecule cases the "
+    "returned callable is additionally evaluated (values and all five derivative modes) at points given as int64/int32 lattice "
+    "arrays, float32, row-/column-strided views, Fortran order and read-only arrays and compared with the float64 C-contiguous "
+    "copy of the same numbers; func_vals is also passed as a strided view / read-only. A case is non-trivial when L >= 1 "
     "and all clauses were evaluated; distinct = distinct generator parameters (grids and functions differ by seed)."
 )
 ASSUMPTIONS = [
@@ -74,6 +80,7 @@ ASSUMPTIONS = [
     "between radial nodes only the library's own splines (public radial_component_splines) define the interpolant; exactness is claimed at nodal radii only",
     "Cartesian-gradient and spherical-derivative clauses are decided for r > 1e-6(1+|centre|) and |sin(phi)| >= 1e-4 (documented zero convention at the centre and on the z-axis is recorded, not decided); radial derivatives are decided everywhere incl. the centre and the z-axis, nu=3 not on a node sphere (one-sided)",
     "tolerances: values 1e-9 of max|f| (per shell relaxed by (K+1)*4eps|centre|/r_i: only matters for a 1e-9 node of an off-centre grid); identities 1e-10; derivatives 1e-6 (Cartesian gradient 3e-6) of the largest derivative over the point set plus the conditioning floor of the numerical differentiation (1e-9|F|/h^nu fit, 1e-11|F|/h stencil); spherical average back-integration 1e-6 plus the rounding of the spline's last-node evaluation times r_n^2 w_n",
+    "array forms: integer and non-float64 (N,3) point arrays are admissible `ndarray(N, 3)` arguments; integer/strided/Fortran/read-only forms must reproduce the float64 result to 1e-10, float32 to 1e-5 (unchanged tree: bitwise equal)",
     "derivative oracle = numerical differentiation of the returned callable (cubic fit along the ray, DFT on circles, 4th-order central differences), self-tested at start-up",
 ]
 LEVEL_TEXT = "Held on the executions listed: seeded band-limited functions on seeded atomic/molecular grids covering every method, radial-grid kind (with/without r=0) and degree kind; not a proof for all grids and functions."
